@@ -171,6 +171,75 @@ MUTS = {
 """, """        part = io.BytesIO(html_content)
         for result in read_html(part, path=path):
 """)]),
+ # ---- round 3: ordinary refactorings that must keep verifying
+ "H6_html_attrs_through_dict_of_generator": (H, [("""        attrs_dict = {k: v for k, v in attrs if v is not None}
+""", """        attrs_dict = dict((k, v) for k, v in attrs if v is not None)
+""")]),
+ "H7_msg_routing_as_conditional_expression": (M, [("""        if _looks_like_html(raw_body):
+            body_plain = _html_to_text(raw_body)
+            body_html = raw_body
+        else:
+            body_plain = raw_body
+            body_html = ""
+""", """        is_html = _looks_like_html(raw_body)
+        body_plain = _html_to_text(raw_body) if is_html else raw_body
+        body_html = raw_body if is_html else ""
+""")]),
+ "H8_html_data_ignores_empty_datum": (H, [("""    def handle_data(self, data: str):
+        if self.skip_depth > 0:
+            return
+""", """    def handle_data(self, data: str):
+        if self.skip_depth > 0 or not data:
+            return
+""")]),
+ "H9_read_html_helpers_and_yield_from": (H, [("""        try:
+            html_text = content.decode(encoding, errors="replace")
+        except (UnicodeDecodeError, LookupError):
+            html_text = content.decode("utf-8", errors="replace")
+""", """        html_text = _decode_html(content, encoding)
+"""), ("""def read_html(
+""", """def _decode_html(raw: bytes, codec: str) -> str:
+    try:
+        return raw.decode(codec, errors="replace")
+    except (UnicodeDecodeError, LookupError):
+        return raw.decode("utf-8", errors="replace")
+
+
+def read_html(
+""")]),
+ "H10_epub_chapter_parser_in_helper": (E, [("""    parser = _XhtmlTextExtractor()
+    try:
+        parser.feed(content)
+    except Exception as e:
+        logger.debug("Failed to parse content document %s: %s", href, e)
+        return None, image_counter, []
+""", """    parser = _parse_xhtml(content)
+    if parser is None:
+        logger.debug("Failed to parse content document %s", href)
+        return None, image_counter, []
+"""), ("""def _extract_chapter(
+""", """def _parse_xhtml(markup: str):
+    extractor = _XhtmlTextExtractor()
+    try:
+        extractor.feed(markup)
+    except Exception:
+        return None
+    return extractor
+
+
+def _extract_chapter(
+""")]),
+ "H11_epub_end_counter_with_max": (E, [("""            if tag == self._skip_tag:
+                self.skip_depth -= 1
+            return
+""", """            if tag == self._skip_tag:
+                self.skip_depth = max(self.skip_depth - 1, 0)
+            return
+""")]),
+ "B17_mhtml_yields_its_own_rendering": (MH, [("""            yield result
+""", """            result.content = html_content.decode("utf-8", "replace")
+            yield result
+""")]),
 }
 
 subprocess.run(["git", "-C", "/repo", "worktree", "remove", "--force", BASE], capture_output=True)
